@@ -30,7 +30,7 @@ ASSUMPTIONS = [
 ]
 REQUIRED_COUNTERS = ["runs", "calls.concurrent", "overlapping_pairs", "yields_injected", "lines_seen",
                      "threads.2", "threads.4", "threads.8", "shape.shared_node", "shape.t.Object",
-                     "trees.parsed", "quiescence.tree_unchanged", "calls.accepted", "calls.rejected", "runs.cold_tree", "cold_process.calls"]
+                     "trees.parsed", "quiescence.tree_unchanged", "calls.accepted", "calls.rejected", "runs.cold_tree", "cold_process.calls", "format_runs.calls"]
 
 ANCHORS = [
     "statham.schema.property:_Property.bind",
@@ -269,6 +269,46 @@ def cold_process(ctx, sut, fpm):
                 return
 
 
+def format_runs(ctx, sut, fpm, injector):
+    """Threads validating strings under the built-in formats at the same time (the checkers call into
+    third-party code with its own process-wide state: warnings filters, locale, caches)."""
+    rng = ctx.rng
+    pool = ["1990-12-31T23:59:59Z", "2020-02-29T12:00:00+01:00", "not a date!!", "zz-zz", "", "12:00 FOO",
+            "2020-01-01 12:00 XYZT", "10:15 BRST", "Sat, 12 Jan 2019 10:00:00 QQQ", "2020-01-01T00:00:00 ABCD",
+            "123e4567-e89b-12d3-a456-426614174000", "5 PM", "tomorrow", "2001-01-01t00:00:00.123z", "1 2 3 UVW"]
+    element = sut.Element(properties={"when": sut.Property(sut.String(format="date-time")),
+                                      "id": sut.Property(sut.String(format="uuid"))})
+    for _ in range(2):
+        nthreads = rng.choice([4, 8])
+        lists = [[{"when": rng.choice(pool), "id": rng.choice(pool)} for _ in range(12)] for _ in range(nthreads)]
+        import warnings  # pylint: disable=import-outside-toplevel
+
+        with warnings.catch_warnings():
+            warnings.simplefilter("ignore")
+            base = [sequential(sut, fpm, element, lst) for lst in lists]
+            records, errors, stuck = concurrent(sut, fpm, element, lists, injector, 0.05)
+            again = [sequential(sut, fpm, element, lst) for lst in lists]
+        if stuck or errors:
+            ctx.inconclusive_reason("format run: threads stuck or harness error " + str(errors[:1]))
+            return
+        ctx.count("format_runs")
+        if base != again:
+            ctx.witness("sequential_baseline_unstable", {"lists": [lst[:6] for lst in lists], "format_run": True},
+                        "sequential validation of format strings differs before and after the concurrent phase")
+            return
+        for tid, recs in enumerate(records):
+            for pos, (_s, _e, outcome, fp) in enumerate(recs):
+                ctx.evaluation()
+                ctx.count("format_runs.calls")
+                want = base[tid][pos]
+                if sut.accepted(outcome) != sut.accepted(want[0]) or (outcome == "ok" and fp != want[1]):
+                    ctx.witness("concurrent_differs_from_sequential",
+                                {"lists": [lst[:6] for lst in lists], "threads": nthreads, "format_run": True,
+                                 "value": lists[tid][pos]},
+                                f"thread {tid} call {pos}: concurrent -> {outcome}; alone -> {want[0]}")
+                    return
+
+
 def run_shard(ctx):
     from vlib import fingerprint as fpm  # pylint: disable=import-outside-toplevel
     from vlib import monitors, sut  # pylint: disable=import-outside-toplevel
@@ -278,6 +318,7 @@ def run_shard(ctx):
     injector = monitors.YieldInjector(0.0, f"{ctx.seed}/{ctx.shard}")
     injector.start()
     try:
+        format_runs(ctx, sut, fpm, injector)
         for idx in range(ctx.params["runs"]):
             one_run(ctx, sut, fpm, monitors, injector, ctx.rng, idx)
     finally:
